@@ -1,4 +1,4 @@
-(* C07 (RTPS part): the decoder never panics outside the FragmentNumberSet class. *)
+(* C07 (RTPS part): the decoder never panics. *)
 From DustDDS Require Import Base.Machine Base.Bytes Wire.WireModel Wire.WireProofs.
 Open Scope Z_scope.
 Ltac Zify.zify_post_hook ::= Z.div_mod_to_equations.
@@ -116,36 +116,17 @@ Proof.
   intros le s a s1; unfold read_i32, pbind, read_n. destruct (shorter s (Z.of_nat 4)); cbn; [discriminate|].
   intros H; inversion H; reflexivity.
 Qed.
-Lemma read_words_value : forall le n s ws s1, fst (read_words le n s) = Ok (ws, s1) ->
-  ws = words_at le n s /\ 4 * Z.of_nat n <= len s.
-Proof.
-  intros le n; induction n; intros s ws s1 H.
-  - cbn in H. inversion H; subst. split; [reflexivity|]. unfold len; lia.
-  - cbn [read_words] in H. apply pbind_inv_ok in H as (w & s2 & H1 & H2).
-    apply pbind_inv_ok in H2 as (ws' & s3 & H2 & H3). cbn in H3. inversion H3; subst.
-    pose proof (read_i32_value _ _ _ _ H1) as Ew. apply consumes_read_i32 in H1 as [E1 L1]. subst s2.
-    apply IHn in H2 as [E2 L2]. cbn [words_at]. split; [congruence|].
-    rewrite len_skipn in L2. unfold len in *. lia.
-Qed.
-
 (* ------------------------------------------------------- FragmentNumberSet *)
-Lemma bind_panic_inv : forall A B (r : res A) (f : A -> res B) x,
-  (forall a y, f a <> Panic y) -> bind r f = Panic x -> r = Panic x.
-Proof. intros A B r f x Hf H; destruct r; cbn in H; [exfalso; eapply Hf; eauto|discriminate|inversion H; reflexivity]. Qed.
-
-Lemma fn_collect_panic : forall base ws n i x, 0 <= i -> fn_collect base ws n i = Panic x ->
-  exists j, i <= j < i + Z.of_nat n /\
-            (256 <= j \/ (j < 256 /\ bit_set ws j = true /\ u32_max < base + j)).
+Lemma fn_collect_np : forall base ws n i, 0 <= i -> i + Z.of_nat n <= 256 ->
+  is_panic (fn_collect base ws n i) = false.
 Proof.
-  intros base ws n; induction n; intros i x Hi H; cbn [fn_collect] in H; [discriminate|].
-  destruct (Z.leb_spec 8 (i / 32)).
-  - exists i. split; [lia|]. left. lia.
-  - destruct (bit_set ws i) eqn:Eb.
-    + destruct (Z.gtb_spec (base + i) u32_max).
-      * exists i. split; [lia|]. right. repeat split; auto; lia.
-      * apply bind_panic_inv in H; [|intros a y; discriminate].
-        apply IHn in H as (j & Hj & Hc); [|lia]. exists j. split; [lia|exact Hc].
-    + apply IHn in H as (j & Hj & Hc); [|lia]. exists j. split; [lia|exact Hc].
+  intros base ws n; induction n; intros i Hi Hn; cbn [fn_collect]; [reflexivity|].
+  destruct (Z.leb_spec 8 (i / 32)); [lia|].
+  destruct (bit_set ws i).
+  - destruct (base + i >? u32_max); [reflexivity|].
+    specialize (IHn (i + 1) ltac:(lia) ltac:(lia)).
+    destruct (fn_collect base ws n (i + 1)); cbn in *; auto.
+  - apply IHn; lia.
 Qed.
 
 Lemma fn_collect_range : forall base ws n i l, 0 <= i -> fn_collect base ws n i = Ok l ->
@@ -174,293 +155,70 @@ Proof.
     destruct (Z.leb_spec 8 ((m - base) / 32)); [lia|]. apply IH; auto.
 Qed.
 
-Lemma In_iota : forall n j, 0 <= j < n -> In j (iota n).
+(* the collect loop followed by new(): a value or InvalidData, for every bitmap *)
+Lemma collect_new_np : forall base ws nb, nb <= 256 ->
+  np (set <~ plift (fn_collect base ws (Z.to_nat nb) 0) ;; plift (fnset_new base set)).
 Proof.
-  intros n j H; unfold iota. apply in_map_iff. exists (Z.to_nat j). split; [lia|].
-  apply in_seq. lia.
+  intros base ws nb Hn s. unfold pbind.
+  pose proof (fn_collect_np base ws (Z.to_nat nb) 0 ltac:(lia) ltac:(lia)) as N.
+  destruct (fn_collect base ws (Z.to_nat nb) 0) as [l|e|x] eqn:E; cbn [plift fst is_panic] in *; try reflexivity; try discriminate.
+  apply fn_collect_range in E; [|lia]. unfold fnset_new.
+  destruct (fnset_new_loop_np base l 0 zero_map E) as [r Hr]. rewrite Hr. reflexivity.
 Qed.
 
-Lemma plift_panic : forall A (r : res A) s x, fst (plift r s) = Panic x -> r = Panic x.
-Proof. intros A r s x; destruct r; cbn; intros H; inversion H; reflexivity. Qed.
-Lemma plift_ok : forall A (r : res A) s a s1, fst (plift r s) = Ok (a, s1) -> r = Ok a /\ s1 = s.
-Proof. intros A r s a s1; destruct r; cbn; intros H; inversion H; auto. Qed.
-
-(* a panic of read_fnset means: the set is complete on the wire and is bad *)
-Lemma read_fnset_panic : forall le s x, fst (read_fnset le s) = Panic x ->
-  let base := dec_int le (firstn 4 s) in
-  let nb := dec_int le (firstn 4 (skipn 4 s)) in
-  let m := Z.min 8 (div_ceil32 nb) in
-  8 + 4 * m <= len s /\ 0 <= m /\
-  ((256 <? nb) || existsb (fun i => bit_set (pad8 (words_at le (Z.to_nat m) (skipn 8 s))) i && (u32_max <? base + i))
-                          (iota (Z.min nb 256))) = true.
+Lemma np_read_fnset : forall le, np (read_fnset le).
 Proof.
-  intros le s x H. unfold read_fnset in H.
-  apply pbind_inv_panic in H as [H|(base & s1 & Hb & H)]; [pose proof (np_read_u32 le s) as N; rewrite H in N; discriminate|].
-  apply pbind_inv_panic in H as [H|(nb & s2 & Hn & H)]; [pose proof (np_read_u32 le s1) as N; rewrite H in N; discriminate|].
-  apply pbind_inv_panic in H as [H|(ws & s3 & Hw & H)]; [pose proof (np_read_bitmap le nb s2) as N; rewrite H in N; discriminate|].
-  apply pbind_inv_panic in H as [H|(u & s4 & Ht & H)]; [cbn in H; discriminate|].
-  cbn in Ht. inversion Ht; subst s4; clear Ht.
-  pose proof (read_u32_value _ _ _ _ Hb) as Eb. apply consumes_read_u32 in Hb as [E1 L1]. subst s1.
-  pose proof (read_u32_value _ _ _ _ Hn) as En. apply consumes_read_u32 in Hn as [E2 L2]. subst s2.
-  rewrite skipn_skipn in Hw. change (4 + 4)%nat with 8%nat in Hw.
-  unfold read_bitmap in Hw. apply pbind_inv_ok in Hw as (wl & s5 & Hw & Hp). cbn in Hp. inversion Hp; subst ws s5; clear Hp.
-  apply read_words_value in Hw as [Ew Lw].
-  rewrite len_skipn in L2. cbv zeta. rewrite <- Eb, <- En.
-  assert (Hm : 0 <= Z.min 8 (div_ceil32 nb) \/ Z.min 8 (div_ceil32 nb) < 0) by lia.
-  assert (Lw' : 4 * Z.of_nat (Z.to_nat (Z.min 8 (div_ceil32 nb))) <= len (skipn 8 s)) by exact Lw.
-  rewrite len_skipn in Lw'.
-  (* the collect loop or new() panics *)
-  apply pbind_inv_panic in H as [H|(set & s6 & Hs & H)].
-  - apply plift_panic in H. apply fn_collect_panic in H as (j & Hj & Hc); [|lia].
-    assert (0 <= nb) by lia.
-    split; [|split].
-    + unfold div_ceil32, len in *. lia.
-    + unfold div_ceil32. lia.
-    + apply orb_true_iff. destruct Hc as [Hc|(Hc1 & Hc2 & Hc3)].
-      * left. apply Z.ltb_lt. lia.
-      * right. apply existsb_exists. exists j. split.
-        -- apply In_iota. lia.
-        -- rewrite Ew in Hc2. rewrite Hc2. apply Z.ltb_lt in Hc3. rewrite Hc3. reflexivity.
-  - exfalso. apply plift_ok in Hs as [Hs _]. apply plift_panic in H.
-    apply fn_collect_range in Hs; [|lia].
-    unfold fnset_new in H.
-    destruct (fnset_new_loop_np base set 0 zero_map Hs) as [r Hr]. rewrite Hr in H. cbn in H. discriminate.
+  intros le. unfold read_fnset.
+  apply np_bind; [apply np_read_u32|intros base]. apply np_bind; [apply np_read_u32|intros nb].
+  destruct (Z.gtb_spec nb 256); [apply np_perr|].
+  apply np_bind; [apply np_read_bitmap|intros ws]. apply np_bind; [apply np_ptick|intros u].
+  apply collect_new_np. lia.
 Qed.
 
-Lemma nack_frag_panic : forall fl v, is_panic (fst (parse_nack_frag fl v)) = true -> fnset_bad (is_le fl) v = true.
-Proof.
-  intros fl v H. unfold parse_nack_frag in H. rewrite run_panic in H.
-  match type of H with is_panic (fst ?X) = true => destruct (fst X) as [a|e|x] eqn:E; try discriminate H end.
-  clear H.
-  apply pbind_inv_panic in E as [H|(rid & s1 & H1 & E)]; [pose proof (np_read_entity_id v) as N; rewrite H in N; discriminate|].
-  apply pbind_inv_panic in E as [H|(wid & s2 & H2 & E)]; [pose proof (np_read_entity_id s1) as N; rewrite H in N; discriminate|].
-  apply pbind_inv_panic in E as [H|(sn & s3 & H3 & E)]; [pose proof (np_read_sn (is_le fl) s2) as N; rewrite H in N; discriminate|].
-  apply consumes_read_entity_id in H1 as [E1 L1]. subst s1.
-  apply consumes_read_entity_id in H2 as [E2 L2]. subst s2.
-  apply consumes_read_sn in H3 as [E3 L3]. subst s3.
-  rewrite !skipn_skipn in E. change (4 + (4 + 8))%nat with 16%nat in E.
-  rewrite !len_skipn in *.
-  apply pbind_inv_panic in E as [H|(st & s4 & H4 & E)].
-  - apply read_fnset_panic in H. cbv zeta in H. destruct H as (Hl & Hm & Hb).
-    unfold fnset_bad. rewrite !shorter_spec.
-    rewrite len_skipn in Hl.
-    destruct (Z.ltb_spec (len v) 24); [unfold len in *; lia|].
-    destruct (Z.ltb_spec (len (skipn 16 v)) (8 + 4 * Z.min 8 (div_ceil32 (dec_int (is_le fl) (firstn 4 (skipn 4 (skipn 16 v))))))).
-    + rewrite len_skipn in *. unfold len in *. lia.
-    + exact Hb.
-  - exfalso. apply pbind_inv_panic in E as [H|(c & s5 & H5 & E)].
-    + pose proof (np_read_i32 (is_le fl) s4) as N; rewrite H in N; discriminate.
-    + cbn in E. discriminate.
-Qed.
+Lemma nack_frag_np : forall fl v, is_panic (fst (parse_nack_frag fl v)) = false.
+Proof. intros; unfold parse_nack_frag; rewrite run_panic. revert v.
+  match goal with |- forall v, is_panic (fst (?p v)) = false => change (np p) end.
+  apply np_bind; [apply np_read_entity_id|intros ?]. apply np_bind; [apply np_read_entity_id|intros ?].
+  apply np_bind; [apply np_read_sn|intros ?]. apply np_bind; [apply np_read_fnset|intros ?].
+  apply np_bind; [apply np_read_i32|intros ?]. apply np_pret. Qed.
 
 (* ------------------------------------------------------------ the submessage loop *)
-Definition nf_bad (x : Z * Z * Z * list Z) : bool :=
-  match x with (id, fl, _, body) => if id =? ID_NACK_FRAG then fnset_bad (is_le fl) body else false end.
-
-Lemma parse_sub_panic : forall id fl sublen v,
-  is_panic (fst (parse_sub id fl sublen v)) = true -> nf_bad (id, fl, sublen, v) = true.
+Lemma parse_sub_np : forall id fl sublen v, is_panic (fst (parse_sub id fl sublen v)) = false.
 Proof.
-  intros id fl sublen v H. unfold parse_sub in H. unfold nf_bad.
-  destruct (id =? ID_ACKNACK) eqn:E1; [rewrite acknack_np in H; discriminate|].
-  destruct (id =? ID_DATA) eqn:E2; [rewrite data_np in H; discriminate|].
-  destruct (id =? ID_DATA_FRAG) eqn:E3; [rewrite data_frag_np in H; discriminate|].
-  destruct (id =? ID_GAP) eqn:E4; [rewrite gap_np in H; discriminate|].
-  destruct (id =? ID_HEARTBEAT) eqn:E5; [rewrite heartbeat_np in H; discriminate|].
-  destruct (id =? ID_HEARTBEAT_FRAG) eqn:E6; [rewrite heartbeat_frag_np in H; discriminate|].
-  destruct (id =? ID_INFO_DST) eqn:E7; [rewrite info_dst_np in H; discriminate|].
-  destruct (id =? ID_INFO_REPLY) eqn:E8; [rewrite info_reply_np in H; discriminate|].
-  destruct (id =? ID_INFO_SRC) eqn:E9; [rewrite info_src_np in H; discriminate|].
-  destruct (id =? ID_INFO_TS) eqn:E10; [rewrite info_ts_np in H; discriminate|].
-  destruct (id =? ID_NACK_FRAG) eqn:E11; [apply nack_frag_panic; exact H|].
-  destruct (id =? ID_PAD); cbn in H; discriminate.
+  intros id fl sublen v. unfold parse_sub.
+  destruct (id =? ID_ACKNACK); [apply acknack_np|].
+  destruct (id =? ID_DATA); [apply data_np|].
+  destruct (id =? ID_DATA_FRAG); [apply data_frag_np|].
+  destruct (id =? ID_GAP); [apply gap_np|].
+  destruct (id =? ID_HEARTBEAT); [apply heartbeat_np|].
+  destruct (id =? ID_HEARTBEAT_FRAG); [apply heartbeat_frag_np|].
+  destruct (id =? ID_INFO_DST); [apply info_dst_np|].
+  destruct (id =? ID_INFO_REPLY); [apply info_reply_np|].
+  destruct (id =? ID_INFO_SRC); [apply info_src_np|].
+  destruct (id =? ID_INFO_TS); [apply info_ts_np|].
+  destruct (id =? ID_NACK_FRAG); [apply nack_frag_np|].
+  destruct (id =? ID_PAD); reflexivity.
 Qed.
 
-Lemma sub_loop_np : forall fuel v,
-  existsb nf_bad (visits fuel v) = false -> is_panic (fst (sub_loop fuel v)) = false.
+Lemma sub_loop_np : forall fuel v, is_panic (fst (sub_loop fuel v)) = false.
 Proof.
-  induction fuel as [|k IH]; intros v H; [reflexivity|].
+  induction fuel as [|k IH]; intros v; [reflexivity|].
   destruct v as [|id [|fl [|b2 [|b3 v']]]]; try reflexivity.
-  cbn [sub_loop visits] in *. cbv zeta in *.
+  cbn [sub_loop]. cbv zeta.
   destruct (shorter v' (sublen_of fl b2 b3)); [reflexivity|].
-  cbn [existsb] in H. apply orb_false_iff in H as [Hb Hr].
-  pose proof (parse_sub_panic id fl (sublen_of fl b2 b3) v') as Hp.
-  destruct (parse_sub id fl (sublen_of fl b2 b3) v') as [[sm|e|x] c]; cbn [fst] in *.
-  - apply IH in Hr. destruct (sub_loop k _) as [[l|e|x] c']; cbn [fst is_panic] in *; auto.
-  - apply IH in Hr. destruct (sub_loop k _) as [r c']; cbn [fst] in *; auto.
-  - rewrite Hp in Hb by reflexivity. discriminate.
+  set (n := Z.to_nat (body_len_of id (sublen_of fl b2 b3) v')).
+  pose proof (parse_sub_np id fl (sublen_of fl b2 b3) (firstn n v')) as Hp.
+  pose proof (IH (skipn n v')) as Hr.
+  destruct (parse_sub id fl (sublen_of fl b2 b3) (firstn n v')) as [[sm|e|x] c]; cbn [fst is_panic] in *; try discriminate.
+  - destruct (sub_loop k (skipn n v')) as [[l|e|x] c']; cbn [fst is_panic] in *; auto.
+  - destruct (sub_loop k (skipn n v')) as [r c']; cbn [fst] in *; auto.
 Qed.
 
-Theorem parse_message_total : forall v,
-  C07_known_fnset v = false -> is_panic (parse_message v) = false.
+Theorem parse_message_total : forall v, is_panic (parse_message v) = false.
 Proof.
-  intros v H. unfold parse_message, parse_message_cost.
-  unfold C07_known_fnset, message_visits in H.
+  intros v. unfold parse_message, parse_message_cost.
   destruct (shorter v 20); [reflexivity|].
   destruct (negb (list_eqb (firstn 4 v) RTPS_MAGIC)); [reflexivity|].
-  apply sub_loop_np in H.
-  destruct (sub_loop MAX_SUBMESSAGES (skipn 20 v)) as [[l|e|x] c]; cbn [fst is_panic] in *; auto.
-Qed.
-
-(* ------------------------------------------------- the class is exactly the panics *)
-Definition succeeds {A} (k : nat) (p : parser A) : Prop :=
-  forall s, Z.of_nat k <= len s -> exists a, fst (p s) = Ok (a, skipn k s).
-
-Lemma succeeds_read_n : forall n, succeeds n (read_n n).
-Proof.
-  intros n s H. unfold read_n. rewrite shorter_spec.
-  destruct (Z.ltb_spec (len s) (Z.of_nat n)); [lia|]. eexists; reflexivity.
-Qed.
-Lemma succeeds_ret : forall A B (p : parser A) (g : A -> B) k, succeeds k p -> succeeds k (pbind p (fun a => pret (g a))).
-Proof.
-  intros A B p g k Hp s H. destruct (Hp s H) as (a & E). exists (g a).
-  rewrite (pbind_ok _ _ p _ s a (skipn k s) E). reflexivity.
-Qed.
-Lemma succeeds_bind : forall A B (p : parser A) (f : A -> parser B) k1 k2,
-  succeeds k1 p -> (forall a, succeeds k2 (f a)) -> succeeds (k1 + k2) (pbind p f).
-Proof.
-  intros A B p f k1 k2 Hp Hf s H. destruct (Hp s ltac:(lia)) as (a & E).
-  destruct (Hf a (skipn k1 s)) as (b & E2). { rewrite len_skipn. unfold len in *. lia. }
-  exists b. rewrite (pbind_ok _ _ p f s a (skipn k1 s) E), E2, skipn_skipn. reflexivity.
-Qed.
-Lemma succeeds_u32 : forall le, succeeds 4 (read_u32 le).
-Proof. intros; unfold read_u32; apply succeeds_ret, succeeds_read_n. Qed.
-Lemma succeeds_i32 : forall le, succeeds 4 (read_i32 le).
-Proof. intros; unfold read_i32; apply succeeds_ret, succeeds_read_n. Qed.
-Lemma succeeds_sn : forall le, succeeds 8 (read_sn le).
-Proof. intros; unfold read_sn. apply (succeeds_bind _ _ _ _ 4 4); [apply succeeds_i32|intros ?; apply succeeds_ret, succeeds_u32]. Qed.
-Lemma succeeds_eid : succeeds 4 read_entity_id.
-Proof. unfold read_entity_id. apply (succeeds_bind _ _ _ _ 3 1); [apply succeeds_read_n|intros ?; apply succeeds_ret, succeeds_read_n]. Qed.
-
-Lemma read_words_succeeds : forall le n s, 4 * Z.of_nat n <= len s ->
-  fst (read_words le n s) = Ok (words_at le n s, skipn (4 * n) s).
-Proof.
-  intros le n; induction n; intros s H; [reflexivity|].
-  cbn [read_words words_at].
-  destruct (succeeds_i32 le s ltac:(lia)) as (w & E).
-  pose proof (read_i32_value _ _ _ _ E) as Ew.
-  rewrite (pbind_ok _ _ (read_i32 le) _ s w (skipn 4 s) E).
-  rewrite (pbind_ok _ _ (read_words le n) _ (skipn 4 s) (words_at le n (skipn 4 s)) (skipn (4 * n) (skipn 4 s))).
-  - cbn [pret fst]. rewrite Ew, skipn_skipn. do 3 f_equal. lia.
-  - apply IHn. rewrite len_skipn. unfold len in *. lia.
-Qed.
-
-Lemma fn_collect_panics : forall base ws n i, 0 <= i ->
-  (exists j, i <= j < i + Z.of_nat n /\ (256 <= j \/ (bit_set ws j = true /\ u32_max < base + j))) ->
-  is_panic (fn_collect base ws n i) = true.
-Proof.
-  intros base ws n; induction n; intros i Hi (j & Hj & Hc); [lia|]. cbn [fn_collect].
-  destruct (Z.leb_spec 8 (i / 32)); [reflexivity|].
-  assert (Rec : j <> i -> is_panic (fn_collect base ws n (i + 1)) = true).
-  { intros Hne. apply IHn; [lia|]. exists j. split; [lia|exact Hc]. }
-  destruct (bit_set ws i) eqn:Eb.
-  - destruct (Z.gtb_spec (base + i) u32_max); [reflexivity|].
-    assert (j <> i) by (intros ->; destruct Hc as [Hc|[_ Hc]]; lia).
-    specialize (Rec H1). destruct (fn_collect base ws n (i + 1)); cbn in *; congruence.
-  - apply Rec. intros ->. destruct Hc as [Hc|[Hc _]]; [lia|congruence].
-Qed.
-
-Lemma In_iota_inv : forall n j, In j (iota n) -> 0 <= j < n.
-Proof.
-  intros n j H. unfold iota in H. apply in_map_iff in H as (k & <- & Hk). apply in_seq in Hk. lia.
-Qed.
-
-Lemma read_fnset_panics : forall le s,
-  let base := dec_int le (firstn 4 s) in
-  let nb := dec_int le (firstn 4 (skipn 4 s)) in
-  let m := Z.min 8 (div_ceil32 nb) in
-  8 + 4 * m <= len s ->
-  ((256 <? nb) || existsb (fun i => bit_set (pad8 (words_at le (Z.to_nat m) (skipn 8 s))) i && (u32_max <? base + i))
-                          (iota (Z.min nb 256))) = true ->
-  is_panic (fst (read_fnset le s)) = true.
-Proof.
-  intros le s base nb m Hl Hbad. unfold read_fnset.
-  assert (Hm : 0 <= m -> True) by auto.
-  assert (L8 : 8 <= len s \/ len s < 8) by lia.
-  destruct (Z.le_gt_cases 0 m) as [Hm0|Hm0].
-  2:{ (* m < 0 means nb is very negative: nothing is bad *)
-      exfalso. unfold m, div_ceil32 in Hm0. apply orb_true_iff in Hbad as [Hb|Hb].
-      - apply Z.ltb_lt in Hb. lia.
-      - apply existsb_exists in Hb as (i & Hi & _). apply In_iota_inv in Hi. lia. }
-  destruct (succeeds_u32 le s ltac:(lia)) as (b0 & E0).
-  pose proof (read_u32_value _ _ _ _ E0) as Eb0. fold base in Eb0.
-  rewrite (pbind_ok _ _ (read_u32 le) _ s b0 (skipn 4 s) E0).
-  destruct (succeeds_u32 le (skipn 4 s)) as (n0 & E1). { rewrite len_skipn. unfold len in *. lia. }
-  pose proof (read_u32_value _ _ _ _ E1) as En0. fold nb in En0.
-  rewrite (pbind_ok _ _ (read_u32 le) _ (skipn 4 s) n0 (skipn 4 (skipn 4 s)) E1).
-  rewrite skipn_skipn. change (4 + 4)%nat with 8%nat. subst b0 n0.
-  unfold read_bitmap. fold m.
-  assert (Ew : fst (read_words le (Z.to_nat m) (skipn 8 s)) = Ok (words_at le (Z.to_nat m) (skipn 8 s), skipn (4 * Z.to_nat m) (skipn 8 s))).
-  { apply read_words_succeeds. rewrite len_skipn. unfold len in *. lia. }
-  set (ws := words_at le (Z.to_nat m) (skipn 8 s)) in *.
-  set (rest := skipn (4 * Z.to_nat m) (skipn 8 s)) in *.
-  rewrite (pbind_ok _ _ _ _ (skipn 8 s) (pad8 ws) rest).
-  2:{ rewrite (pbind_ok _ _ (read_words le (Z.to_nat m)) _ (skipn 8 s) ws rest Ew). reflexivity. }
-  rewrite (pbind_ok _ _ (ptick _) _ rest tt rest) by reflexivity.
-  assert (P : is_panic (fn_collect base (pad8 ws) (Z.to_nat (Z.min nb 257)) 0) = true).
-  { apply fn_collect_panics; [lia|]. apply orb_true_iff in Hbad as [Hb|Hb].
-    - apply Z.ltb_lt in Hb. exists 256. split; [lia|left; lia].
-    - apply existsb_exists in Hb as (i & Hi & Hc). apply In_iota_inv in Hi. apply andb_true_iff in Hc as [Hc1 Hc2].
-      apply Z.ltb_lt in Hc2. exists i. split; [lia|right; auto]. }
-  destruct (fn_collect base (pad8 ws) (Z.to_nat (Z.min nb 257)) 0) as [l|e|x] eqn:Ec; try discriminate P.
-  rewrite (pbind_panic _ _ (plift (Panic x)) _ rest x) by reflexivity. reflexivity.
-Qed.
-
-Lemma nack_frag_bad_panics : forall fl v, fnset_bad (is_le fl) v = true -> is_panic (fst (parse_nack_frag fl v)) = true.
-Proof.
-  intros fl v H. unfold fnset_bad in H. rewrite !shorter_spec in H.
-  destruct (Z.ltb_spec (len v) 24) as [L|L]; [discriminate|].
-  set (s := skipn 16 v) in *.
-  destruct (Z.ltb_spec (len s) (8 + 4 * Z.min 8 (div_ceil32 (dec_int (is_le fl) (firstn 4 (skipn 4 s)))))) as [L2|L2]; [discriminate|].
-  unfold parse_nack_frag. rewrite run_panic.
-  destruct (succeeds_eid v ltac:(lia)) as (rid & E1).
-  rewrite (pbind_ok _ _ read_entity_id _ v rid (skipn 4 v) E1).
-  destruct (succeeds_eid (skipn 4 v)) as (wid & E2). { rewrite len_skipn. unfold len in *. lia. }
-  rewrite (pbind_ok _ _ read_entity_id _ (skipn 4 v) wid (skipn 4 (skipn 4 v)) E2).
-  destruct (succeeds_sn (is_le fl) (skipn 4 (skipn 4 v))) as (sn & E3). { rewrite !len_skipn. unfold len in *. rewrite ?skipn_length. lia. }
-  rewrite (pbind_ok _ _ (read_sn (is_le fl)) _ _ sn (skipn 8 (skipn 4 (skipn 4 v))) E3).
-  rewrite !skipn_skipn. change (4 + 4 + 8)%nat with 16%nat. fold s.
-  pose proof (read_fnset_panics (is_le fl) s L2 H) as P.
-  destruct (fst (read_fnset (is_le fl) s)) as [a|e|x] eqn:Ef; try discriminate P.
-  rewrite (pbind_panic _ _ (read_fnset (is_le fl)) _ s x Ef). reflexivity.
-Qed.
-
-Lemma parse_sub_bad_panics : forall id fl sublen v,
-  nf_bad (id, fl, sublen, v) = true -> is_panic (fst (parse_sub id fl sublen v)) = true.
-Proof.
-  intros id fl sublen v H. unfold nf_bad in H. destruct (Z.eqb_spec id ID_NACK_FRAG) as [->|]; [|discriminate].
-  unfold parse_sub. change (ID_NACK_FRAG =? ID_ACKNACK) with false. change (ID_NACK_FRAG =? ID_DATA) with false.
-  change (ID_NACK_FRAG =? ID_DATA_FRAG) with false. change (ID_NACK_FRAG =? ID_GAP) with false.
-  change (ID_NACK_FRAG =? ID_HEARTBEAT) with false. change (ID_NACK_FRAG =? ID_HEARTBEAT_FRAG) with false.
-  change (ID_NACK_FRAG =? ID_INFO_DST) with false. change (ID_NACK_FRAG =? ID_INFO_REPLY) with false.
-  change (ID_NACK_FRAG =? ID_INFO_SRC) with false. change (ID_NACK_FRAG =? ID_INFO_TS) with false.
-  change (ID_NACK_FRAG =? ID_NACK_FRAG) with true. cbv iota.
-  apply nack_frag_bad_panics; exact H.
-Qed.
-
-Lemma sub_loop_bad_panics : forall fuel v,
-  existsb nf_bad (visits fuel v) = true -> is_panic (fst (sub_loop fuel v)) = true.
-Proof.
-  induction fuel as [|k IH]; intros v H; [discriminate|].
-  destruct v as [|id [|fl [|b2 [|b3 v']]]]; try discriminate.
-  cbn [sub_loop visits] in *. cbv zeta in *.
-  destruct (shorter v' (sublen_of fl b2 b3)); [discriminate|].
-  cbn [existsb] in H.
-  pose proof (parse_sub_bad_panics id fl (sublen_of fl b2 b3) v') as Hp.
-  destruct (parse_sub id fl (sublen_of fl b2 b3) v') as [[sm|e|x] c]; cbn [fst] in *.
-  - destruct (nf_bad _) eqn:Eb; [specialize (Hp eq_refl); discriminate|]. cbn [orb] in H.
-    apply IH in H. destruct (sub_loop k _) as [[l|e|x] c']; cbn [fst is_panic] in *; auto; discriminate.
-  - destruct (nf_bad _) eqn:Eb; [specialize (Hp eq_refl); discriminate|]. cbn [orb] in H.
-    apply IH in H. destruct (sub_loop k _) as [r c']; cbn [fst] in *; auto.
-  - reflexivity.
-Qed.
-
-Theorem parse_message_panics_in_class : forall v,
-  C07_known_fnset v = true -> is_panic (parse_message v) = true.
-Proof.
-  intros v H. unfold parse_message, parse_message_cost.
-  unfold C07_known_fnset, message_visits in H.
-  destruct (shorter v 20); [discriminate|].
-  destruct (negb (list_eqb (firstn 4 v) RTPS_MAGIC)); [discriminate|].
-  apply sub_loop_bad_panics in H.
+  pose proof (sub_loop_np MAX_SUBMESSAGES (skipn 20 v)) as H.
   destruct (sub_loop MAX_SUBMESSAGES (skipn 20 v)) as [[l|e|x] c]; cbn [fst is_panic] in *; auto.
 Qed.
